@@ -241,6 +241,7 @@ func (q *checker) bcheckBlock(block []*a.Node) error {
 		if unreachable {
 			return fmt.Errorf("check: unreachable code")
 		}
+		q.verifObserveFacts(o)
 		if err := q.bcheckStatement(o); err != nil {
 			return err
 		}
